@@ -409,6 +409,63 @@ def ob_history(kind, depth):
               clause="the prior returns the density of the CURRENT field, precision / covariate coefficients and node heights after every history", funcs=FUNCS)
 
 
+_TIME_SCALES = {
+    # label: (tip heights, internal heights): the time-aware variants weight each squared difference by the inter-coalescent durations
+    "ordinary": ([0.0, 0.0, 0.0, 0.0], [0.5, 1.2, 3.0]),
+    "near-polytomy": ([0.0, 0.0, 0.0, 0.0], [1.0, 1.0000002, 1.0000005]),
+    "time unit 1e-7": ([0.0, 0.0, 0.0, 0.0], [0.5e-7, 1.2e-7, 3.0e-7]),
+    "time unit 1e+5": ([0.0, 0.0, 0.0, 0.0], [0.5e5, 1.2e5, 3.0e5]),
+}
+
+
+def _time_scale_problems(label, rescale):
+    """integrated(field) must be the integral over the precision of Gamma(tau; a, b) x GMRF(field | tau) for the SAME variant.  The GMRF log
+    density is c + (N-1)/2 log tau - tau Q / 2 in tau: c and Q are read off the real GMRF at tau = 1 and 2, the integral is then closed form."""
+    import torchtree.distributions.gmrf as gm
+    import torchtree.distributions.gmrf_integrated as gi
+    from torchtree.core.parameter import Parameter
+    from specs import treemodels
+    tips, internal = _TIME_SCALES[label]
+    t64 = lambda v: torch.tensor(v, dtype=torch.float64)
+    tree, names = ((0, 1), (2, 3)), ["A", "B", "C", "D"]
+    # node order of ((0,1),(2,3)): the two cherries, then the root
+    field = [0.3, -0.4, 1.1]
+    a, b = 1.5, 0.8
+    N = len(field)
+
+    def tm():
+        return treemodels.build_timetree(tree, names, tips, t64(internal))[0]
+
+    def gmrf(tau):
+        return float(gm.GMRF("g", Parameter("x", t64(field)), Parameter("tau", t64([tau])), tm(), rescale=rescale)().sum())
+    g1, g2 = gmrf(1.0), gmrf(2.0)
+    Q = 2.0 * (g1 - g2 + (N - 1) / 2.0 * math.log(2.0))
+    c = g1 + Q / 2.0
+    want = c + a * math.log(b) - math.lgamma(a) + math.lgamma(a + (N - 1) / 2.0) - (a + (N - 1) / 2.0) * math.log(b + Q / 2.0)
+    got = float(gi.GMRFGammaIntegrated("gi", Parameter("x", t64(field)), a, b, tm(), rescale=rescale)().sum())
+    if not (abs(got - want) <= 1e-9 * max(1.0, abs(want))):
+        return ["time-aware%s, %s (coalescent times %s): integrated prior %r, integral of Gamma(%s, %s) x the time-aware GMRF density %r" % (
+            " rescaled" if rescale else "", label, internal, got, a, b, want)]
+    return []
+
+
+def ob_time_scales(label, rescale):
+    def body():
+        bad = _time_scale_problems(label, rescale)
+        if bad:
+            raise Refuted(bad[0], witness={"case": label, "rescale": rescale}, confirmed=True,
+                          replay={"kind": "custom", "contract": "C20", "func": "replay_time_scales", "args": {"case": label, "rescale": rescale}})
+        return {"backend": "concrete (closed form from the real GMRF at two precisions)", "cases": 1,
+                "statement": "%s, rescale=%s: the integrated prior equals the integral over the precision of Gamma x the time-aware GMRF" % (label, rescale)}
+    return Ob("C20.integrated.gmrf.timeaware[%s,rescale=%s]" % (label, rescale), "B", body,
+              clause="precision-integrated field prior ≡ integral of prior x time-aware GMRF, for any time unit and near-coincident coalescent times (bounded)", funcs=FUNCS)
+
+
+def replay_time_scales(args):
+    bad = _time_scale_problems(args["case"], bool(args["rescale"]))
+    return (False, bad[0]) if bad else (True, "held")
+
+
 def ob_json_variants():
     """the plain / weighted / time-aware (rescaled or not) variants SELECTED THROUGH A JSON SPECIFICATION are the variants the keywords name:
     an object loaded with from_json evaluates like the object constructed directly with the same variant (GMRF and GMRFGammaIntegrated)."""
@@ -594,6 +651,9 @@ def obligations(tier, seed):
         obs.append(ob_history(kind, 3 if tier == "quick" else 4))
         obs.append(ob_dtype(kind))
     obs.append(ob_json_variants())
+    for label in _TIME_SCALES:
+        for rescale in (True, False):
+            obs.append(ob_time_scales(label, rescale))
     obs.append(ob_precision_matrix_held())
     obs.append(ob_suffstat_ties())
 
